@@ -7,7 +7,7 @@
 //
 //	u | d | (b t|f) | (i N) | (f BITS) | (s xHEX) | (r xHEX) | (a e*) | (h (k v)*) | (e k v)
 //	(t xNAME e*)      DeferredType: a type name, bare (no e) or with parameters
-//	(c xNAME e*)      Deferred call  Name(args)  → ('new', Name, args…)  resp. Deferred(name, args…)
+//	(c xNAME|? e*)    Deferred call  Name(args)  → ('new', Name, args…)  resp. Deferred(name, args…); `?` = not a plain word
 //	(n KIND xNAME)    result of `type X = …` (KIND alias|object|typeset|other)
 package syn
 
@@ -184,7 +184,7 @@ func enc(sb *strings.Builder, v px.Value) {
 		}
 		sb.WriteByte(')')
 	case types.Deferred:
-		sb.WriteString("(c " + hexs(v.Name()))
+		sb.WriteString("(c " + showName(v.Name()))
 		v.Arguments().Each(func(e px.Value) {
 			sb.WriteByte(' ')
 			enc(sb, e)
@@ -199,6 +199,22 @@ func enc(sb *strings.Builder, v px.Value) {
 	default:
 		sb.WriteString("(n other " + hexs(fmt.Sprintf("%T", v)) + ")")
 	}
+}
+
+// showName: the name of a Deferred call is compared only when it is a plain word.  `Deferred(x, …)` takes its name
+// from x.String(), which for anything but a string / boolean / undef / default goes through value formatting that
+// the model does not have; such names never look like a word, and both sides print `?` for them.
+func showName(n string) string {
+	if n == "" {
+		return "?"
+	}
+	for i, c := range n {
+		word := c == '_' || c == '$' || c == ':' || (c >= '0' && c <= '9') || (c >= 'A' && c <= 'Z') || (c >= 'a' && c <= 'z')
+		if !word || (i == 0 && (c == ':' || (c >= '0' && c <= '9'))) {
+			return "?"
+		}
+	}
+	return hexs(n)
 }
 
 // ---- oracles -----------------------------------------------------------------------------------------------
